@@ -20,6 +20,15 @@ RULE = ("states = (population, weight form, id or random answer) argument tuples
         "equivalences, exact partition of the published position, documented exception classes")  # fmt: skip
 
 IDS = [f"{i}" for i in range(24)] + ["", "é", "id_123", "a" * 100] + [f"user{i}@example.com" for i in range(12)]
+try:  # ids whose real MD5 position lies exactly on / next to the boundaries of small-integer vectors
+    import json as _json
+    import os as _os
+
+    from ..common import VERIF as _V
+
+    IDS += [e["id"] for e in _json.load(open(_os.path.join(_V, "tools", "witnesses.json")))["ids"]]
+except (OSError, ValueError, KeyError):
+    pass
 
 
 class Obj:
